@@ -245,9 +245,16 @@ def gen_subst(rnd):
                 body += rnd.choice([' ', ' ', '\n', '', '  ', ', '])
             else:
                 body += ' '
-    kind = rnd.choice(['new', 'new', 'def'])
+    kind = rnd.choice(['new', 'new', 'def', 'opt', 'opt'])
+    dflt = None
     if kind == 'def':
         d = '\\def\\yby%s{%s}' % (''.join('#%d' % k for k in range(1, n + 1)), body)
+    elif kind == 'opt':
+        # first parameter optional; brackets inside the default / the actual option are protected by braces
+        dflt = rnd.choice(['W', 'W W', '{]W,W]}', '{W]}W', '', '{[}W'])
+        while 'W' in dflt:
+            dflt = dflt.replace('W', W('d'), 1)
+        d = '\\newcommand{\\yby}[%d][%s]{%s}' % (n, dflt, body)
     else:
         d = '\\newcommand{\\yby}[%d]{%s}' % (n, body)
     defs = '\\newcommand{\\ypm}{ypmz}\n\\newcommand{\\ypn}{}\n' + d + '\n'
@@ -258,7 +265,16 @@ def gen_subst(rnd):
             a = a.replace('W', W('a'), 1)
         args.append(a)
     call = '\\yby'
-    for a in args:
+    if kind == 'opt':
+        if rnd.random() < .6:
+            o = rnd.choice(['W', '{W]W}', 'W{W]}', '{[}W', '{W[W]W}', 'W W', '{]}'])
+            while 'W' in o:
+                o = o.replace('W', W('o'), 1)
+            call += '[' + o + ']'
+            args[0] = o
+        else:
+            args[0] = dflt
+    for a in (args[1:] if kind == 'opt' else args):
         if re.fullmatch(r'\\[a-zA-Z]+', a) and rnd.random() < .5:
             call += rnd.choice(['', ' ']) + a           # single-token argument without braces
         else:
@@ -268,23 +284,32 @@ def gen_subst(rnd):
         subst = subst.replace('#%d' % k, protect(args[k - 1]))
     tail = rnd.choice([' ', '\n', '{} ', ', '])
     where = rnd.choice(['direct', 'direct', 'inner', 'arg'])
+    bare = call == '\\yby'       # no argument given at all: the call is a control word
+    if not bare and re.search(r'\\[a-zA-Z]+$', call):
+        tail = rnd.choice(['{} ', ', '])    # (white space behind an unbraced control-word argument is not judged)
     if where == 'direct':
-        doc = W('u') + ' ' + call + tail + W('u')
-        ref = doc.replace(call, protect(subst) if tail[0].isspace() else subst, 1)
+        u1, u2 = W('u'), W('u')
+        doc = u1 + ' ' + call + tail + u2
+        if bare and tail[0].isspace():
+            # white space after a control word is not a token: the expansion is followed directly by the next word
+            ref = u1 + ' ' + protect(subst) + tail.lstrip() + u2
+        else:
+            ref = u1 + ' ' + (protect(subst) if tail[0].isspace() else subst) + tail + u2
     elif where == 'inner':
         # the call is written inside the body of another macro
         x1, x2 = W('x'), W('x')
         defs += '\\newcommand{\\youter}{%s %s %s}\n' % (x1, call, x2)
         u1, u2 = W('u'), W('u')
         doc = u1 + ' \\youter{} ' + u2
-        ref = u1 + ' ' + x1 + ' ' + subst + ' ' + x2 + '{} ' + u2
+        ref = u1 + ' ' + x1 + ' ' + (protect(subst) if bare else subst + ' ') + x2 + '{} ' + u2
     else:
         # the call is the argument of a declared / unknown macro
         m = rnd.choice(['\\textbf', '\\zzmac', '\\footnote', '\\textcolor{red}'])
         u1, u2 = W('u'), W('u')
         doc = u1 + ' ' + m + '{' + call + '} ' + u2
         ref = u1 + ' ' + m + '{' + subst + '} ' + u2
-    return defs, doc, ref, dict(where=where, kind=kind, args=args, body=body)
+    return defs, doc, ref, dict(where=where, kind=kind, args=args, body=body, opt=kind == 'opt' and '[' in call,
+                                bare_before_brace=bare and kind == 'opt' and where == 'arg')
 
 
 class C09(core.Check):
@@ -356,13 +381,19 @@ class C09(core.Check):
             (t1, p1), e1 = tex.run(doc, defs=defs, **opts)
             (t2, p2), e2 = tex.run(ref, defs=defs, **opts)
         cnt = {'subst_cases': 1, 'subst_' + what['where']: 1}
+        if what['kind'] == 'opt':
+            cnt['subst_optional_' + ('given' if what['opt'] else 'default')] = 1
         if any(re.search(r'\\[a-zA-Z]+$', a) for a in what['args']):
             cnt['subst_arg_ends_with_control_word'] = 1
 
         def norm(t):
             return re.sub(r'\s+', ' ', t).strip()
         if e1 or e2 or norm(t1) != norm(t2):
-            return dict(ok=False, nt=True, key='substitution:' + ('stderr' if e1 or e2 else what['where']), cnt=cnt,
+            key = 'substitution:' + ('stderr' if e1 or e2 else what['where'])
+            if what.get('bare_before_brace') and not (e1 or e2) and norm(t1).replace(' ', '') == norm(t2).replace(' ', ''):
+                # D24 (recorded for C05): the look-ahead for the absent optional argument eats the blank behind '}'
+                key = 'substitution:absent-optional-before-closing-brace'
+            return dict(ok=False, nt=True, key=key, cnt=cnt,
                         obs=None, detail=dict(defs=defs, call_document=doc, substituted_document=ref, call_text=t1,
                                               substituted_text=t2, stderr=e1 + e2, what=what))
         return dict(ok=True, nt=True, key=None, cnt=cnt, obs=dict(doc=tex.short(doc, 120), text=tex.short(norm(t1), 100)))
@@ -424,7 +455,7 @@ class C09(core.Check):
                     obs=dict(D=tex.short(D, 200), B=tex.short(B, 150), plain=tex.short(t2, 120)))
 
     def quotas(self, tier):
-        return {'subst_cases': 3000, 'subst_inner': 500, 'subst_arg': 500, 'subst_arg_ends_with_control_word': 500, 'routes': 2000, 'inline': 500, 'ltinput_twice': 300, 'calls': 5000, 'unknown_uses': 100, 'default_used': 300,
+        return {'subst_optional_given': 300, 'subst_optional_default': 200, 'subst_cases': 3000, 'subst_inner': 500, 'subst_arg': 500, 'subst_arg_ends_with_control_word': 500, 'routes': 2000, 'inline': 500, 'ltinput_twice': 300, 'calls': 5000, 'unknown_uses': 100, 'default_used': 300,
                 'nested_calls': 500}
 
 
